@@ -2,11 +2,15 @@
 package configmanager
 
 import (
+	"encoding/json"
+
 	v2 "mosn.io/mosn/pkg/config/v2"
 	"mosn.io/mosn/pkg/zzverif/verif"
 )
 
-func zzTLS(k string) v2.TLSConfig { return v2.TLSConfig{Status: true, PrivateKey: k, CertChain: "cert"} }
+func zzTLS(k string) v2.TLSConfig {
+	return v2.TLSConfig{Status: true, PrivateKey: k, CertChain: "cert"}
+}
 
 func zzListener(name, k string, n int) v2.Listener {
 	l := v2.Listener{}
@@ -50,6 +54,16 @@ func VerifC20_NoLeak() {
 			m := &v2.MOSNConfig{}
 			m.ClusterManager.TLSContext = zzTLS(k)
 			m.ClusterManager.Clusters = []v2.Cluster{{Name: "cm", TLS: zzTLS(k)}}
+			if verif.Choose("bootstrap_loaded", 2) == 1 {
+				// a bootstrap configuration that was parsed from its file (inline clusters): the
+				// cluster manager section goes through its real MarshalJSON / UnmarshalJSON
+				b, err := json.Marshal(m.ClusterManager)
+				var cm v2.ClusterManagerConfig
+				if err == nil && json.Unmarshal(b, &cm) == nil {
+					m.ClusterManager = cm
+					verif.Cover("bootstrap-loaded")
+				}
+			}
 			m.Servers = []v2.ServerConfig{{Listeners: []v2.Listener{zzListener("boot", k, n)}}}
 			SetMosnConfig(m)
 		case 1:
